@@ -104,6 +104,9 @@ class Module:
         with open(path, encoding='utf-8') as fh:
             self.source = fh.read()
         self.tree = ast.parse(self.source, filename=path)
+        if os.environ.get('GSCAN_NO_CANON') != '1':
+            from .canon import shape
+            self.tree = shape(self.tree)
         self.lines = self.source.splitlines()
         self.functions, self.classes, self.constants = {}, {}, {}
         self.imports = {}      # local name -> ('mod', modname) | ('obj', modname, objname)
@@ -155,6 +158,9 @@ class Repo:
             for c in m.classes.values():
                 for f in c.methods.values():
                     self.method_index.setdefault(f.name, []).append(f)
+        if os.environ.get('GSCAN_NO_CANON') != '1':
+            from .canon import positional_calls
+            positional_calls(self)
 
     # ---------------------------------------------------------------- anchors
     def module(self, name):
